@@ -148,10 +148,34 @@ class SiteCheck(PropertyCheck):
                             return
             f['class'] = 'unclassified'
         else:
+            f['class'] = 'unclassified'
             if f['kind'] == 'hidden-row' and f.get('producer') in ('module_index', 'index_roots') and f.get('root'):
                 f['class'] = 'hidden-root-listed'
-            else:
-                f['class'] = 'unclassified'
+            href = f.get('href')
+            if f['kind'] == 'hidden-link' and href is not None and href.startswith('#') and f.get('zone') in ('member_doc', 'docstring'):
+                # the C11 findings seen from C12: a docstring link shortened against ANOTHER page (the page of the inherited
+                # docstring's source, or the page a stale linker holds), whose real target -- a VISIBLE member of that other
+                # page -- has the same name as a hidden member of the page the link is rendered on
+                frag = S.unquote(href[1:])
+                hid = S.hidden_closure(reg)
+                objs = reg['objs']
+                for i, o in enumerate(objs):
+                    if o['url'].split('#')[0] != f.get('page'):
+                        continue
+                    src = o.get('docsource')
+                    if src is not None and src != i:
+                        sp = objs[src]['parent']
+                        if sp is not None and objs[sp]['url'] != f.get('page') and \
+                                any(objs[ci]['name'] == frag and not hid[ci] for ci in objs[sp]['contents']):
+                            f['class'] = 'inherited-docstring-context'
+                            f['target'] = objs[sp]['full'] + '.' + frag
+                            return
+                    lp = o.get('linker_page')
+                    if lp is not None and src == i and objs[lp]['url'] != f.get('page') and \
+                            any(objs[ci]['name'] == frag and not hid[ci] for ci in objs[lp]['contents']):
+                        f['class'] = 'stale-linker-page'
+                        f['target'] = objs[lp]['full'] + '.' + frag
+                        return
 
     def run_batch(self, cases: List[Dict[str, Any]], with_model: bool = True) -> List[Violation]:
         res = lib.run_impl_worker('c11_crawl.py', [compact_case(c) for c in cases], jobs=16, timeout=6000)
@@ -330,14 +354,16 @@ class SiteCheck(PropertyCheck):
         known, _ = lib.load_known_findings(self.id)
         for f in findings:
             self.annotate(f, reg, cr)
-        fresh = [f for f in findings if f['class'] == 'unclassified']
+        def is_known(f: Dict[str, Any]) -> bool:
+            return self.classify_known(Violation('oracle', f['what'], case={'finding': f}), known) is not None
+        fresh = [f for f in findings if not is_known(f)]
         for f in findings[:12]:
             print(' -', f['class'], ':', f['what'])
         want = (data.get('input') or {}).get('finding', {})
-        same = [f for f in findings if f.get('kind') == want.get('kind')]
+        same = [f for f in fresh if f.get('kind') == want.get('kind')]
         print('property %s requires: %s' % (self.id, 'every relative link resolves to a written file / existing anchor; every '
               'visible object has its page / anchor' if self.which == 'C11' else
               'a hidden object has no page, anchor, row, search or inventory entry and is no link target; every listing '
               'entry of a PRIVATE object carries the private marker'))
-        print('still failing' if (same or fresh) else 'holds on this input')
+        print('still failing' if (same or fresh) else ('only recorded known findings on this input' if findings else 'holds on this input'))
         return 1 if (same or fresh or rc) else 0
